@@ -1169,6 +1169,14 @@ pub fn c19_build(inp: &PV) -> PV {
             5 => (vec![x.clone(), y.clone()], vec![!(x.clone() & (y - x))]),
             // a single-result operation through fn_operation; an input that is never used
             6 => (vec![x.clone(), y], vec![var::fn_operation(st, &[x.clone(), x], t1.clone(), op3.clone())]),
+            // the remaining operator overloads: (x | y) << (y >> x), then divided by x
+            8 => (vec![x.clone(), y.clone()], vec![((x.clone() | y.clone()) << (y >> x.clone())) / x]),
+            // explicit handles: extra source/target nodes of a variable are part of its hyperedge
+            9 => {
+                let extra = x.new_target();
+                st.borrow_mut().targets.push(extra);
+                (vec![x.clone()], vec![x])
+            }
             // a handle that outlives the builder
             7 => {
                 *leaked.borrow_mut() = Some(x.clone());
